@@ -79,7 +79,8 @@ def c11(tier, seed):
              "one evaluation = one (layer, length) with its set of histories; distinct = distinct (layer, length, seed); non-trivial = at least 2 operations",
         musthit=["musthit:seek_to_len", "musthit:seek_end_len_multiple_of_chunk", "musthit:position_query_in_last_partial_chunk",
                  "lenclass:enc:len%chunk=0", "lenclass:enc:len<tag", "lenclass:comp:len%block=0", "zero_size_reads", "held:comp_beyond_4gib"],
-        softhit=["musthit:compressed_block_end_next_to_chunk_edge", "musthit:lone_unneeded_final_byte_starts_a_chunk"],
+        softhit=["musthit:compressed_block_end_next_to_chunk_edge", "musthit:lone_unneeded_final_byte_starts_a_chunk",
+                 "musthit:length_field_of_the_size_table_straddles_two_chunks"],
     )
 
 
@@ -127,7 +128,7 @@ def c03(tier, seed):
              "chunk of a twin archive, tag swap, middle dropped, truncation at chunk edges, foreign header); the normal reader is driven over every listed file "
              "in a random order with random buffer sizes and every returned byte, name, size and hash is compared with the original; "
              "distinct = distinct (program, alteration); non-trivial = the altered bytes differ from the original",
-        musthit=["outcome:flip:header:error_at_open", "outcome:flip:chunk_tag:error_at_open", "outcome:none:chunks:original_data_returned",
+        musthit=["unaltered_archive_read_through_short_read_source", "musthit:whole_chunks_exchanged_at_distance_256", "outcome:flip:header:error_at_open", "outcome:flip:chunk_tag:error_at_open", "outcome:none:chunks:original_data_returned",
                  "outcome:chunk_swap:chunks:error_at_open", "outcome:chunk_from_other:chunks:error_at_open"],
     )
 
@@ -187,7 +188,8 @@ def c14(tier, seed):
         rule="fault = cut right after flush() returned: the bytes the destination holds at that moment are repaired in both modes; every file must come back "
              "with at least the bytes appended before the flush (plain / unauthenticated) or the bytes the independent decoder finds in completed encryption "
              "chunks (authenticated); distinct = distinct (program, flush index); non-trivial = something was appended before the flush",
-        musthit=["musthit:compressible_200000_then_flush", "musthit:flush_exactly_on_block_edge", "flush:layers0", "flush:layers1", "flush:layers2", "flush:layers3"],
+        musthit=["musthit:compressible_200000_then_flush", "musthit:flush_exactly_on_block_edge", "flush:layers0", "flush:layers1", "flush:layers2", "flush:layers3",
+                 "snapshot_repaired_from_short_read_source"],
         softhit=["musthit:flush_with_less_than_a_tag_in_the_chunk_in_progress", "musthit:block_end_after_input_window_edge_last_byte_not_needed"],
     )
 
@@ -299,7 +301,8 @@ def c16(tier, seed):
         musthit=["musthit:absolute_name", "musthit:dotdot_in_the_middle", "form:whole_archive_linear", "form:listed_names", "form:glob",
                  "syscalls_inside_output_dir", "members_extracted_exactly", "snapshot_unchanged_outside_output_dir",
                  "musthit:member_reaching_an_existing_outside_file_through_a_symlink", "musthit:component_of_exactly_255_bytes",
-                 "musthit:more_members_open_at_once_than_the_output_pool", "musthit:member_at_a_dangling_symlink"],
+                 "musthit:more_members_open_at_once_than_the_output_pool", "musthit:member_at_a_dangling_symlink",
+                 "musthit:member_through_a_link_to_a_sibling_with_the_same_path_prefix", "musthit:dots_that_are_not_a_parent_directory_component"],
         assumptions=["a member through a pre-existing symlink, a component over 255 bytes, an over-long path or a file/directory conflict puts the archive under the containment clause only"],
     )
 
@@ -399,7 +402,7 @@ def c20(tier, seed):
              "distinct = distinct case; all non-trivial",
         musthit=["held:create_read_back_by_rust_reader", "held:extract_hands_exact_bytes", "held:callback_failure_gives_error_status",
                  "held:invalid_handle_gives_error_status", "create:valgrind", "extract:valgrind", "null_or_stale_handle_call",
-                 "create:write_callback_reports_interruptions", "extract:after_info_on_the_same_context",
+                 "create:write_callback_reports_interruptions", "create:several_recipients_in_one_pem_list", "extract:after_info_on_the_same_context",
                  "extract:after_a_failed_extraction_on_the_same_context"],
     )
 
